@@ -240,6 +240,13 @@ func (e *SpecEnv) resolveType(t spec.TypeExpr) (types.Type, string, bool) {
 		return et, "Err", true
 	case "uint":
 		return types.Typ[types.Uint], "Int", true
+	case "struct{}":
+		st := types.NewStruct(nil, nil)
+		return st, vc.S.Sort(st), true
+	case "strset":
+		return nil, "(Array String Bool)", true
+	case "intset":
+		return nil, "(Array Int Bool)", true
 	}
 	if _, ok := vc.S.Extra[t.Name]; ok {
 		return nil, t.Name, true
@@ -297,6 +304,19 @@ func (e *SpecEnv) ident(x *spec.Ident) Val {
 	for i, rn := range e.resultNames {
 		if rn == name && rn != "" && rn != "_" && i < len(e.results) {
 			return e.results[i]
+		}
+	}
+	if strings.HasPrefix(name, "$i") && len(name) > 2 && e.fr != nil {
+		var k int
+		if _, err := fmt.Sscanf(name[2:], "%d", &k); err == nil {
+			for _, li := range e.fr.loops {
+				if li.ordinal == k && li.idxPhi != nil {
+					if v, ok := e.fr.env[li.idxPhi]; ok {
+						return Val{T: types.Typ[types.Int], Term: fmt.Sprintf("(+ %s 1)", v.Term)}
+					}
+				}
+			}
+			return e.fail(x, "%s: no such range-over-slice loop (or not yet entered)", name)
 		}
 	}
 	if e.loop != nil {
@@ -791,6 +811,15 @@ func (e *SpecEnv) call(x *spec.Call) Val {
 				return Val{Sort: fmt.Sprintf("(Array %s Bool)", vc.S.Sort(mt.Key())), Term: mapDom(ms, e.termOf(v))}
 			}
 		}
+	case "emptyset":
+		if need(0) {
+			return Val{Sort: "(Array String Bool)", Term: "((as const (Array String Bool)) false)"}
+		}
+	case "add":
+		if need(2) {
+			st := arg(0)
+			return Val{Sort: st.Sort, Term: fmt.Sprintf("(store %s %s true)", st.Term, argT(1))}
+		}
 	case "entry":
 		if need(1) && e.loop != nil && e.loop.entryState != nil {
 			savedSt := e.st
@@ -806,6 +835,17 @@ func (e *SpecEnv) call(x *spec.Call) Val {
 			return v
 		}
 		return e.fail(x, "entry() outside a loop invariant")
+	}
+	// method call on a value: x.M(args) for a pure method under contract
+	if sel, ok := x.Fun.(*spec.Select); ok {
+		if id, isID := sel.X.(*spec.Ident); !isID || e.lookupObj(id.Name+"."+sel.Name) == nil || e.isValueName(id.Name) {
+			recv := e.compile(sel.X)
+			if recv.T != nil {
+				if m := e.lookupMethod(recv.T, sel.Name); m != nil {
+					return e.callPureVals(x, m, append([]Val{recv}, e.compileArgs(x.Args)...))
+				}
+			}
+		}
 	}
 	// user spec function
 	if sf, ok := vc.W.SpecFns[fname]; ok {
@@ -938,7 +978,20 @@ func (w *World) declareSpecFn(vc *VC, sf *spec.SpecFunc) {
 	pos := len(vc.decls)
 	body := env.compile(sf.Body)
 	_ = pos
-	vc.decls = append(vc.decls, fmt.Sprintf("(define-fun %s (%s) %s %s)", name, strings.Join(params, " "), rs, env.termOf(body)))
+	bt := env.termOf(body)
+	if (strings.Contains(bt, "(forall ") || strings.Contains(bt, "(exists ")) && len(params) > 0 {
+		// opaque by default: an uninterpreted symbol plus its definitional axiom, unfolded by need (E-matching
+		// on applications) instead of macro-expanded into every use
+		vc.decls = append(vc.decls, fmt.Sprintf("(declare-fun %s (%s) %s)", name, strings.Join(sorts, " "), rs))
+		var as []string
+		for _, p := range sf.Params {
+			as = append(as, "?"+p.Name)
+		}
+		app := "(" + name + " " + strings.Join(as, " ") + ")"
+		vc.axioms = append(vc.axioms, fmt.Sprintf("(forall (%s) (! (= %s %s) :pattern (%s)))", strings.Join(params, " "), app, bt, app))
+		return
+	}
+	vc.decls = append(vc.decls, fmt.Sprintf("(define-fun %s (%s) %s %s)", name, strings.Join(params, " "), rs, bt))
 }
 
 func (e *SpecEnv) lookupRepoFunc(fun spec.Expr) *ssa.Function {
@@ -950,13 +1003,40 @@ func (e *SpecEnv) lookupRepoFunc(fun spec.Expr) *ssa.Function {
 	return nil
 }
 
+func (e *SpecEnv) isValueName(name string) bool {
+	if _, ok := e.bound[name]; ok {
+		return true
+	}
+	if _, ok := e.names[name]; ok {
+		return true
+	}
+	return e.fr != nil && e.fr.hasLocal(name)
+}
+
+func (e *SpecEnv) compileArgs(xs []spec.Expr) []Val {
+	var out []Val
+	for _, a := range xs {
+		out = append(out, e.compile(a))
+	}
+	return out
+}
+
+func (e *SpecEnv) lookupMethod(t types.Type, name string) *ssa.Function {
+	prog := e.vc.W.Prog
+	for _, tt := range []types.Type{t, types.NewPointer(t)} {
+		ms := prog.MethodSets.MethodSet(tt)
+		for i := 0; i < ms.Len(); i++ {
+			if ms.At(i).Obj().Name() == name {
+				return prog.MethodValue(ms.At(i))
+			}
+		}
+	}
+	return nil
+}
+
 // callPure applies a pure function's contract inside a specification.
 func (e *SpecEnv) callPure(x *spec.Call, f *ssa.Function) Val {
 	vc := e.vc
-	sp := vc.W.SpecFor(f)
-	if sp == nil || !sp.Pure {
-		return e.fail(x, "%s is not a pure function under contract", f.Name())
-	}
 	var args []Val
 	for i := range x.Args {
 		a := e.compile(x.Args[i])
@@ -964,10 +1044,21 @@ func (e *SpecEnv) callPure(x *spec.Call, f *ssa.Function) Val {
 			pt := f.Signature.Params().At(i).Type()
 			a = Val{T: pt, Term: vc.S.Zero(pt)}
 		}
-		if a.Sort == "" && (a.Obj != nil || a.Loc != nil) {
-			a = Val{T: a.T, Term: e.termOf(a)}
-		}
 		args = append(args, a)
+	}
+	return e.callPureVals(x, f, args)
+}
+
+func (e *SpecEnv) callPureVals(x *spec.Call, f *ssa.Function, args []Val) Val {
+	vc := e.vc
+	sp := vc.W.SpecFor(f)
+	if sp == nil || !sp.Pure {
+		return e.fail(x, "%s is not a pure function under contract", f.Name())
+	}
+	for i, a := range args {
+		if a.Sort == "" && (a.Obj != nil || a.Loc != nil) {
+			args[i] = Val{T: a.T, Term: e.termOf(a)}
+		}
 	}
 	// instantiate a generic callee by the argument types
 	sig := f.Signature
